@@ -1,0 +1,23 @@
+//go:build verif
+
+package ruleguard
+
+// Verification hooks for the filter predicates (C02/C17); add-only, build tag `verif`.
+
+import (
+	"path/filepath"
+	"runtime"
+)
+
+// VerifKindBits exposes (*irLoader).stringToBasicKind: the types.BasicInfo mask a
+// Type.OfKind() kind name is mapped to (0 = the name is rejected).
+func VerifKindBits(kind string) int {
+	var l irLoader
+	return int(l.stringToBasicKind(kind))
+}
+
+// VerifSourceDir is the directory of the ruleguard package sources this binary was built from.
+func VerifSourceDir() string {
+	_, file, _, _ := runtime.Caller(0)
+	return filepath.Dir(file)
+}
